@@ -52,6 +52,7 @@ func BeforeRWLock(mu *sync.RWMutex) {
 	if f == nil {
 		return
 	}
+	f("beforelock") // 无竞争时也是一个调度点
 	for !mu.TryLock() {
 		Probe("lock.contended")
 		f("lockwait")
@@ -65,6 +66,7 @@ func BeforeRLock(mu *sync.RWMutex) {
 	if f == nil {
 		return
 	}
+	f("beforelock") // 无竞争时也是一个调度点
 	for !mu.TryRLock() {
 		Probe("lock.contended")
 		f("lockwait")
